@@ -389,7 +389,8 @@ def _check_flag_flow(ctx, cg, W):
 
 
 class WaitSem(Sem):
-    """state: frozenset of variables holding a future of a write submitted in this activation and not yet waited"""
+    """state: frozenset of alias groups (frozensets of variable names); each group stands for ONE future of a write submitted in this
+    activation and not yet waited for - result() through any of its names discharges it"""
     base_exc_escapes = False
 
     def __init__(self, is_submit):
@@ -399,22 +400,36 @@ class WaitSem(Sem):
         return a | b
 
     def transfer(self, st, state):
-        s = set(state)
+        groups = [set(g) for g in state]
+
+        def drop_name(n):
+            for g in groups:
+                if n in g:
+                    g.discard(n)
+                    if not g:
+                        g.add(n + "<overwritten>")          # the only handle on the submitted future is gone: kept as lost
         for c in calls_in(st):
             if isinstance(c.func, ast.Attribute) and c.func.attr == "result" and isinstance(c.func.value, ast.Name):
-                s.discard(c.func.value.id)
+                groups = [g for g in groups if c.func.value.id not in g]
         if isinstance(st, ast.Assign) and isinstance(st.value, ast.Call) and self.is_submit(st.value):
+            new = set()
             for t in st.targets:
                 if isinstance(t, ast.Name):
-                    s.add(t.id)
+                    drop_name(t.id)
+                    new.add(t.id)
+            groups.append(new or {"<discarded future>"})
         elif isinstance(st, ast.Assign):
+            srcg = next((g for g in groups if isinstance(st.value, ast.Name) and st.value.id in g), None)
             for t in st.targets:
-                if isinstance(t, ast.Name) and t.id in s and not (isinstance(st.value, ast.Name) and st.value.id in s):
-                    # the only handle on the submitted future is overwritten: keep it as lost
-                    s.discard(t.id); s.add(t.id + "<overwritten>")
+                if isinstance(t, ast.Name):
+                    if srcg is not None and t.id in srcg:
+                        continue
+                    drop_name(t.id)
+                    if srcg is not None:
+                        srcg.add(t.id)                        # another name for the same future
         elif isinstance(st, ast.Expr) and isinstance(st.value, ast.Call) and self.is_submit(st.value):
-            s.add("<discarded future>")
-        return frozenset(s)
+            groups.append({"<discarded future>"})
+        return frozenset(frozenset(g) for g in groups if g)
 
 
 def _check_blocks(ctx, cg, G, W):
@@ -425,7 +440,7 @@ def _check_blocks(ctx, cg, G, W):
     bad = [x for x in exits if x.kind == "return" and x.state]
     ctx.ob("C17-R3", G.fq, f"every normal return follows future.result() of the submitted write ({sum(1 for x in exits if x.kind == 'return')} returns)",
            not bad, node=(bad[0].node if bad else G.node), construct="return before result() of the submitted write",
-           msg=(f"return at line {bad[0].line} is reachable with the submitted write future {sorted(bad[0].state)} not waited for" if bad else None),
+           msg=(f"return at line {bad[0].line} is reachable with the submitted write future {sorted(sorted(g) for g in bad[0].state)} not waited for" if bad else None),
            path=(f"entry {G.fq} -> return@{bad[0].line}" if bad else None))
     # the wait is not inside a handler that swallows the write's exception
     for c in calls_in(G.node):
